@@ -32,6 +32,25 @@ SWAPS = [
     (r"(?<=[ \[(])1(?=[;\])\s,])", ["2", "0"]), (r"(?<=[ \[(])0(?=[;\])\s,])", ["1"]),
     (r"f64::INFINITY", ["f64::NEG_INFINITY"]), (r"f64::NEG_INFINITY", ["f64::INFINITY"]),
 ]
+# second operator set (AUTOMUT_OPS=2): structural changes the first set cannot express
+SWAPS2 = [
+    (r"self\.period as f64", ["self.count as f64", "(self.period + 1) as f64"]), (r"self\.count as f64", ["self.period as f64", "(self.count + 1) as f64"]),
+    (r"self\.period(?! as f64)(?=[ ;)\]{,])", ["(self.period + 1)", "self.period.saturating_sub(1).max(1)"]),
+    (r"self\.count(?! as f64)(?= [<>=]=? )", ["(self.count + 1)"]),
+    (r"\.is_sign_positive\(\)", [".is_sign_negative()"]),
+    (r"\.sqrt\(\)", [""]),
+    (r"\b0\.\.", ["1.."]),
+    (r"^(\s*(?:\} else )?if )(?!let )(.+)( \{)$", [r"\1!(\2)\3", r"\1true\3", r"\1false\3"]),
+    (r"\(([\w.]+(?:\(\))?) - ([\w.]+(?:\(\))?)\)", [r"(\2 - \1)"]),
+    (r"self\.index\]", ["(self.index + 1) % self.period]"]),
+    (r"\[0\]", ["[self.index]"]),
+    (r"\.iter\(\)", [".iter().skip(1)", ".iter().rev()"]),
+    (r"max3\(", ["f64::max(0.0 * "]) if False else (r"\bmax3\(([^,]+), ([^,]+), ([^)]+)\)", [r"max3(\1, \2, \2)", r"max3(\1, \3, \3)", r"max3(\2, \2, \3)"]),
+    (r"&self\.deque\[self\.index\.\.self\.count\]", ["&self.deque[self.index + 1..self.count]", "&self.deque[self.index..self.count - 1]"]),
+    (r"input\.close\(\) \+ input\.high\(\) \+ input\.low\(\)", ["input.close() + input.high() + input.high()", "input.close() + input.close() + input.low()", "input.open() + input.high() + input.low()"]),
+]
+if os.environ.get("AUTOMUT_OPS") == "2":
+    SWAPS = SWAPS2
 STMT = re.compile(r"^\s*self\.[\w.]+(\[[^\]]*\])? (=|\+=|-=) .*;\s*$")
 SKIP = re.compile(r"^\s*(//|#\[|#!\[|use |pub use |pub mod |mod |impl<|impl |where|pub struct|pub trait|type |fn |pub fn |\}|\{)")
 
@@ -51,8 +70,8 @@ for rel in files:
         for pat, reps in SWAPS:
             for m in re.finditer(pat, l):
                 for r in reps:
-                    sites.append((rel, i, m.start(), m.end(), r, pat))
-        if STMT.match(l):
+                    sites.append((rel, i, m.start(), m.end(), m.expand(r) if "\\" in r else r, pat))
+        if STMT.match(l) and os.environ.get("AUTOMUT_OPS") != "2":
             sites.append((rel, i, None, None, None, "delete-stmt"))
 
 rng = random.Random(seed)
